@@ -106,11 +106,14 @@ func classifyRace(rep string) (a, b string, ok bool) {
 	// the pool adversary legitimately owns what it took out of a pool: a race
 	// between its scribbling and a library frame means the library still uses
 	// an object after Put (or before Get)
-	const adv = "github.com/ja7ad/otp/internal/verifw/worlda.(*env).advBody"
-	if oka && !okb && fb == adv {
+	poolSide := func(f string) bool {
+		return f == "github.com/ja7ad/otp/internal/verifw/worlda.(*env).advBody" ||
+			f == "github.com/ja7ad/otp/internal/verifrt.poison" // poison-on-Put by the next owner of the object
+	}
+	if oka && !okb && poolSide(fb) {
 		return fa, "pool-adversary", true
 	}
-	if okb && !oka && fa == adv {
+	if okb && !oka && poolSide(fa) {
 		return fb, "pool-adversary", true
 	}
 	if !oka || !okb {
